@@ -27,11 +27,12 @@ type HistOpts struct {
 	Mem          sim.MemOpts
 	InHandOps    int // percent chance per decision point of a membership/top-up op during the hand
 	InHandMem    sim.MemOpts
-	ExpectStalls bool                         // stalls are part of the property (fault injection): do not give up on them
-	NoRearm      bool                         // never re-arm the gate from outside (C08: "without any further external call")
-	RearmOnLeave bool                         // re-arm the gate from outside when a gate participant left (otherwise wait for the 2 s timeout)
-	Prepare      func(s *sim.Sim)             // after table creation, before the first hand
-	BeforeHand   func(s *sim.Sim, n int) bool // false = stop
+	OnStall      func(s *sim.Sim, h *sim.Hand) // the driver gave up on a hand (legal action refused / no progress)
+	ExpectStalls bool                          // stalls are part of the property (fault injection): do not give up on them
+	NoRearm      bool                          // never re-arm the gate from outside (C08: "without any further external call")
+	RearmOnLeave bool                          // re-arm the gate from outside when a gate participant left (otherwise wait for the 2 s timeout)
+	Prepare      func(s *sim.Sim)              // after table creation, before the first hand
+	BeforeHand   func(s *sim.Sim, n int) bool  // false = stop
 	AfterHand    func(s *sim.Sim, h *sim.Hand)
 	SettledPlan  func(s *sim.Sim, n int) // called before each hand to plan in-callback actions
 }
@@ -146,6 +147,9 @@ func RunHistoryCfg(c *run.Ctx, cfg sim.Config, o HistOpts, hooks sim.Hooks, onOp
 				o.AfterHand(s, h)
 			}
 			return s
+		}
+		if s.Stall != "" && o.OnStall != nil {
+			o.OnStall(s, h)
 		}
 		if s.Stall != "" {
 			stalls++
